@@ -12,16 +12,17 @@ import os
 from fractions import Fraction
 
 import numpy as np
-from qiskit.circuit import QuantumCircuit, Instruction, Gate, ClassicalRegister
+from qiskit.circuit import QuantumCircuit, QuantumRegister, Instruction, Gate, ClassicalRegister
 from qiskit.circuit.library import (CXGate, CZGate, iSwapGate, DCXGate, SwapGate, HGate, TGate, RXGate, SXGate, CCXGate,
-                                    RZZGate, CPhaseGate)
+                                    RZZGate, CPhaseGate, CYGate, CHGate, ECRGate, CSGate, CSdgGate, CSXGate,
+                                    RXXGate, RYYGate, RZXGate, CRXGate, CRYGate, CRZGate)
 
 import qiskit_addon_cutting.automated_cut_finding as acf
 from qiskit_addon_cutting.automated_cut_finding import find_cuts, OptimizationParameters, DeviceConstraints
 from qiskit_addon_cutting.qpd import QPDBasis, TwoQubitQPDGate
 
 from common import CaseWriter, Raw, coq
-from circ import CircCtx, coq_circ, coq_op
+from circ import CircCtx, coq_circ, coq_op, circuit_registers
 
 IMPORTS = ("From Coq Require Import QArith.\nFrom CKT Require Import Model.CutFinder Corr.C07Corr.\n"
            "Close Scope Q_scope.")
@@ -29,30 +30,40 @@ STRICT = os.environ.get("CKT_C07_STRICT", "0") == "1"
 
 TWO_Q = {"cx": CXGate, "cz": CZGate, "iswap": iSwapGate, "dcx": DCXGate, "swap": SwapGate}
 ONE_Q = {"h": HGate, "t": TGate, "sx": SXGate}
+# further supported families (judge-only stream: kappa is not an exact integer in general)
+TWO_Q_FIXED = {"cy": CYGate, "ch": CHGate, "ecr": ECRGate, "cs": CSGate, "csdg": CSdgGate, "csx": CSXGate}
+TWO_Q_ANGLE = {"rzz": RZZGate, "rxx": RXXGate, "ryy": RYYGate, "rzx": RZXGate, "crx": CRXGate, "cry": CRYGate,
+               "crz": CRZGate, "cp": CPhaseGate}
 ACODE = {"CutTwoQubitGate": 1, "CutLeftWire": 2, "CutRightWire": 3, "CutBothWires": 4}
 
 
 # ----------------------------------------------------------------------------------------
 # circuits from a JSON description
 # ----------------------------------------------------------------------------------------
-def build_circuit(nq, ops, ncl=0):
-    qc = QuantumCircuit(nq)
+def build_circuit(nq, ops, ncl=0, regs=None, global_phase=0.0):
+    """regs: optional list of quantum register sizes (sum = nq); default one register"""
+    if regs:
+        assert sum(regs) == nq
+        qc = QuantumCircuit(*[QuantumRegister(sz, f"r{k}") for k, sz in enumerate(regs)], global_phase=global_phase)
+    else:
+        qc = QuantumCircuit(nq, global_phase=global_phase)
     if ncl:
         qc.add_register(ClassicalRegister(ncl, "c"))
     for o in ops:
         n, qs = o["name"], o["qs"]
+        lab = o.get("label")
         if n in TWO_Q:
-            qc.append(TWO_Q[n](), qs)
+            qc.append(TWO_Q[n](label=lab) if lab else TWO_Q[n](), qs)
+        elif n in TWO_Q_FIXED:
+            qc.append(TWO_Q_FIXED[n](), qs)
+        elif n in TWO_Q_ANGLE:
+            qc.append(TWO_Q_ANGLE[n](o["params"][0]), qs)
         elif n in ONE_Q:
             qc.append(ONE_Q[n](), qs)
         elif n == "rx":
             qc.append(RXGate(o["params"][0]), qs)
-        elif n == "rzz":
-            qc.append(RZZGate(o["params"][0]), qs)
-        elif n == "cp":
-            qc.append(CPhaseGate(o["params"][0]), qs)
         elif n == "barrier":
-            qc.barrier(*qs)
+            qc.barrier(*qs, label=lab) if lab else qc.barrier(*qs)
         elif n == "opaque2":            # a 2-qubit Instruction that is not a Gate: gamma None, cannot be gate-cut
             qc.append(Instruction("opaque2", 2, 0, []), qs)
         elif n == "ccx":
@@ -151,10 +162,22 @@ def iface_view(itf):
                 subs=sorted(sorted(int(w) for w in s) for s in itf.subcircuits))
 
 
+def pipeline_width(out):
+    """second half of the observation point: the package's own cut_wires + partition_problem (automatic labels) on the
+    returned circuit; only meaningful for barrier-free circuits (DESIGN O1: automatic labels treat barriers as connectivity).
+    -> max subcircuit width, or a string describing an exception"""
+    from qiskit_addon_cutting import cut_wires, partition_problem
+    try:
+        pp = partition_problem(circuit=cut_wires(out))
+        return max([sc.num_qubits for sc in pp.subcircuits.values()] or [0])
+    except Exception as e:  # noqa: BLE001
+        return f"{type(e).__name__}: {str(e)[:120]}"
+
+
 def analyse(case):
     """run the implementation on case['input']; fill case['impl'] (JSON-able) and return the Coq literal pieces"""
     inp = case["input"]
-    qc = build_circuit(inp["nq"], inp["ops"], inp.get("ncl", 0))
+    qc = build_circuit(inp["nq"], inp["ops"], inp.get("ncl", 0), inp.get("regs"), inp.get("global_phase", 0.0))
     ctx = CircCtx()
     cin = ctx.canon_circuit(qc)
     # gate table: kappa and canonical wrapped form for every 2-qubit Gate instance
@@ -164,8 +187,11 @@ def analyse(case):
         if isinstance(op, Gate) and len(inst.qubits) == 2 and op.name != "barrier":
             g = ctx.gate_id(op)
             if g not in gtab:
-                kappa = Fraction(float(QPDBasis.from_instruction(op).kappa))
-                gtab[g] = (kappa, ctx.canon_op(TwoQubitQPDGate.from_instruction(op)))
+                try:
+                    kappa = Fraction(float(QPDBasis.from_instruction(op).kappa))
+                    gtab[g] = (kappa, ctx.canon_op(TwoQubitQPDGate.from_instruction(op)))
+                except ValueError:
+                    pass        # unsupported 2-qubit Gate: qc_to_cco_circuit itself raises ValueError (outside the domain)
     r = run_impl(qc, inp["W"], inp["gate_lo"], inp["wire_lo"], inp["max_gamma"], inp["max_backjumps"], inp["seed"],
                  replay=case.get("replay_tape"))
     impl = dict(status=r["status"], error=r.get("error"), tape=[str(Fraction(t)) for t in r["tape"]])
@@ -178,8 +204,11 @@ def analyse(case):
         impl["pen_stats"] = stats_view(opt.cut_optimization.get_stats(penultimate=True))
         impl["greedy"] = state_view(opt.cut_optimization.greedy_goal_state)
         impl["minimum_reached_engine"] = bool(opt.cut_optimization.minimum_reached())
+    case["shape_in"] = dict(circuit_registers(qc), global_phase=float(qc.global_phase))
     if r["status"] == "ok":
         impl["out"] = ctx.canon_circuit(r["out"])
+        impl["shape_out"] = dict(circuit_registers(r["out"]), global_phase=float(r["out"].global_phase))
+        impl["pipeline"] = pipeline_width(r["out"]) if inp.get("pipeline") else None
         md = r["md"]
         impl["cuts"] = [[k, int(i)] for k, i in md["cuts"]]
         impl["overhead"] = str(Fraction(float(md["sampling_overhead"])))
@@ -317,8 +346,11 @@ def settings(rng, nq):
     W = min(W, nq)
     gl, wl = LO[int(rng.integers(0, 3))]
     mg = MAX_GAMMAS[int(rng.choice(len(MAX_GAMMAS), p=[0.1, 0.1, 0.1, 0.15, 0.2, 0.35]))]
+    if rng.random() < 0.12:          # non-integer and very large limits (dyadic, so exact in binary64 and in Q)
+        mg = [1.5, 2.5, 10.75, 1e6][int(rng.integers(0, 4))]
     mb = BACKJUMPS[int(rng.choice(len(BACKJUMPS), p=[0.1, 0.15, 0.2, 0.3, 0.25]))]
-    seed = None if rng.random() < 0.3 else int(rng.integers(0, 1000))
+    u = rng.random()
+    seed = None if u < 0.3 else (int(rng.integers(2 ** 32, 2 ** 40)) if u < 0.36 else int(rng.integers(0, 1000)))
     return dict(W=W, gate_lo=gl, wire_lo=wl, max_gamma=mg, max_backjumps=mb, seed=seed)
 
 
@@ -341,10 +373,25 @@ def generate(rng, tier, outdir):
     max2q = 10 if quick else 25
     visit_cap = 2000 if quick else 2000
 
+    def judged(case, contract="judge_accepts_clean_case"):
+        # the property-level oracle must accept every case generated on the unchanged tree (a flagged case is either a real
+        # finding or a false alarm of the oracle; both must surface on a green run, not only after some unrelated mismatch)
+        try:
+            v = judge(case)
+        except Exception as e:  # noqa: BLE001
+            v = dict(violates=True, detail=f"judge raised {type(e).__name__}: {e}")
+        w.contract(contract, not v.get("violates"))
+        if v.get("violates") and len(w.notes) < 5:
+            w.notes.append(dict(contract=contract, detail=v["detail"][:400], input=case["input"],
+                                impl={k: case["impl"].get(k) for k in ("status", "error", "cuts", "overhead", "out")}))
+        return v
+
     def emit(group, inp, nontrivial=None, thin=False):
+        inp.setdefault("pipeline", True)
         case = dict(kind=group, input=inp)
         analyse(case)
         impl = case["impl"]
+        judged(case)
         if thin:
             # keep only a fraction of the uninformative outcomes (no cut needed / immediate refusal)
             if impl["status"] == "ok" and not impl["cuts"] and rng.random() > 0.2:
@@ -439,10 +486,13 @@ def generate(rng, tier, outdir):
             pos = int(rng.integers(0, len(ops) + 1))
             ops.insert(pos, dict(name="ccx", qs=[int(x) for x in rng.permutation(nq)[:3]]))
         elif mode == 2:         # invalid settings
-            if rng.random() < 0.5:
+            u = rng.random()
+            if u < 0.35:
                 inp["max_gamma"] = 0.5
-            else:
+            elif u < 0.7:
                 inp["max_backjumps"] = -1
+            else:
+                inp["W"] = 0
         elif mode == 3:         # no cut kind allowed at all
             inp["gate_lo"] = False
             inp["wire_lo"] = False
@@ -450,6 +500,49 @@ def generate(rng, tier, outdir):
             inp["ncl"] = 1
         w.count("malformed.mode", ["ccx", "ccx", "bad-settings", "no-cut-kinds", "clbits"][mode])
         emit("malformed", inp, nontrivial=True)
+
+    # ---- judge-only stream (no model comparison): the part of the quantifier the exact model comparison cannot take ----
+    # all registered gate families with random angles (kappa not dyadic), 9-10 qubits, up to 25 two-qubit gates,
+    # several quantum registers, global phase, labelled gates/barriers; big searches and gammas beyond 2^53 are kept
+    n_wide = 90 if quick else 700
+    fam_fixed = list(TWO_Q) + list(TWO_Q_FIXED)
+    fam_angle = list(TWO_Q_ANGLE)
+    for it in range(n_wide):
+        nq = int(rng.integers(2, 11))
+        n2q = int(rng.integers(1, 15)) if (quick or rng.random() < 0.6) else int(rng.integers(15, 26))
+        ops = rand_ops(rng, nq, n2q, ["cx"], p_idle=0.15)
+        for o in ops:
+            if len(o["qs"]) == 2 and o["name"] == "cx":
+                if rng.random() < 0.5:
+                    o["name"] = fam_angle[int(rng.integers(0, len(fam_angle)))]
+                    o["params"] = [float(rng.uniform(0.05, 3.1))]
+                else:
+                    o["name"] = fam_fixed[int(rng.integers(0, len(fam_fixed)))]
+                    if o["name"] in TWO_Q and rng.random() < 0.1:
+                        o["label"] = "lbl"
+            elif o["name"] == "barrier" and rng.random() < 0.3:
+                o["label"] = "sep"
+        regs = None
+        if rng.random() < 0.6 and nq >= 2:
+            k = int(rng.integers(1, nq))
+            regs = [k, nq - k] if rng.random() < 0.7 or nq - k < 2 else [k, 1, nq - k - 1]
+        inp = dict(nq=nq, ops=ops, regs=regs, global_phase=float(rng.integers(0, 8)) / 4.0, pipeline=True, **settings(rng, nq))
+        case = dict(kind="wide", input=inp)
+        analyse(case)
+        v = judged(case, contract="wide_stream_judge_ok")
+        w.count("wide.status", case["impl"]["status"])
+        w.count("wide.nq", nq)
+        w.count("wide.regs", "one" if not regs else len(regs))
+        if case["impl"]["status"] == "ok":
+            w.count("wide.cuts", min(len(case["impl"]["cuts"]), 8))
+    # observation (outside the model: Q has no infinity): max_gamma = inf with a dead-ended greedy pass -> OverflowError
+    for ops, W, gl, wl in (([dict(name="cx", qs=[0, 1])], 1, False, True),
+                           ([dict(name="cx", qs=[0, 1]), dict(name="opaque2", qs=[1, 2])], 2, True, False),
+                           ([dict(name="cx", qs=[0, 1]), dict(name="swap", qs=[1, 2])], 2, True, True)):
+        case = dict(kind="obs", input=dict(nq=3, ops=ops, W=W, gate_lo=gl, wire_lo=wl, max_gamma=float("inf"),
+                                           max_backjumps=10, seed=1))
+        analyse(case)
+        w.count("observation.max_gamma_inf", f"{case['impl']['status']}: {str(case['impl'].get('error'))[:60]}")
 
     return w.finish(
         rule="random circuits on 2..8 qubits with up to %d two-qubit gates from {cx,cz: gamma 3; iswap,dcx,swap: gamma 7} (exact in "
@@ -571,16 +664,47 @@ def _feasible_exists(gates, W, gate_lo, wire_lo, budget=2_000_000):
     return rec(0, {}, {}, {})
 
 
+def _in_domain(case):
+    """the property's quantifier = the hypotheses of the C07 theorems: one- and two-qubit GATES of supported families
+    (every two-qubit instruction has a QPD basis, i.e. is cuttable) and barriers, no classical bits, W >= 1,
+    finite max_gamma >= 1, max_backjumps None or >= 0, seed None or a non-negative integer"""
+    inp, cin, gtab = case["input"], case["canon_in"], case["gtab"]
+    reasons = []
+    for d in cin:
+        k = d["op"][0]
+        if k == "barrier":
+            continue
+        if k != "gate":
+            reasons.append(f"non-gate instruction {d['op']}")
+        elif len(d["qs"]) > 2:
+            reasons.append("gate on more than two qubits")
+        elif len(d["qs"]) == 2 and str(d["op"][1]) not in gtab:
+            reasons.append(f"two-qubit instruction {d['op'][2]} without a QPD basis (not a supported gate)")
+    if inp.get("ncl", 0) != 0:
+        reasons.append("classical bits")
+    mg = inp["max_gamma"]
+    if not (mg >= 1) or mg == float("inf"):
+        reasons.append(f"max_gamma={mg}")
+    if not (inp["max_backjumps"] is None or inp["max_backjumps"] >= 0):
+        reasons.append("negative max_backjumps")
+    if inp["W"] < 1:
+        reasons.append("W < 1")
+    if not (inp["seed"] is None or inp["seed"] >= 0):
+        reasons.append("negative seed")
+    return reasons
+
+
 def judge(case):
     inp, impl = case["input"], case["impl"]
     W = inp["W"]
     cin = case["canon_in"]
     gtab = case["gtab"]
-    in_domain = (all(len(d["qs"]) <= 2 or d["op"][0] == "barrier" for d in cin) and inp.get("ncl", 0) == 0
-                 and inp["max_gamma"] >= 1 and (inp["max_backjumps"] is None or inp["max_backjumps"] >= 0) and W >= 1)
+    outside = _in_domain(case)
+    in_domain = not outside
     if impl["status"] != "ok":
         if not in_domain:
-            return dict(violates=False, detail=f"input outside the property's domain; implementation answered {impl['status']}: {impl.get('error')}")
+            return dict(violates=False, detail=f"input outside the property's domain ({'; '.join(outside)}); implementation answered "
+                        f"{impl['status']}: {impl.get('error')}")
         if impl["status"] == "crashed":
             return dict(violates=True, detail=f"non-ValueError exception on a valid request: {impl.get('error')}")
         gates = []
@@ -596,6 +720,9 @@ def judge(case):
                     + ("EXISTS" if feas else "does not exist"))
     out = impl["out"]
     problems = []
+    # (0) the output circuit has the shape of the input: qubits, registers, classical bits, global phase
+    if "shape_in" in case and "shape_out" in impl and case["shape_in"] != impl["shape_out"]:
+        problems.append(f"circuit shape changed: {case['shape_in']} -> {impl['shape_out']}")
     # (1) only markers added
     stripped = [d for d in out if d["op"][0] != "cut_wire"]
     if len(stripped) != len(cin):
@@ -610,7 +737,7 @@ def judge(case):
                     problems.append(f"instruction {i}: cut gate is not the wrapped form of the input gate {b['op']}")
             elif a["op"] != b["op"]:
                 problems.append(f"instruction {i}: operation changed {b['op']} -> {a['op']}")
-    # (2) every CutWire sits directly before the gate it refers to, on one of its qubits
+    # (2) every CutWire sits directly before the (uncut) two-qubit gate it refers to, on one of its qubits, in input order
     i = 0
     while i < len(out):
         if out[i]["op"][0] == "cut_wire":
@@ -619,8 +746,8 @@ def judge(case):
             while j < len(out) and out[j]["op"][0] == "cut_wire":
                 qs.append(out[j]["qs"][0])
                 j += 1
-            if j == len(out) or out[j]["op"][0] in ("barrier",) or len(out[j]["qs"]) != 2:
-                problems.append(f"CutWire run at {i} is not followed by a two-qubit gate")
+            if j == len(out) or out[j]["op"][0] != "gate" or len(out[j]["qs"]) != 2:
+                problems.append(f"CutWire run at {i} is not followed by an uncut two-qubit gate")
             else:
                 gq = out[j]["qs"]
                 if len(set(qs)) != len(qs) or any(q not in gq for q in qs):
@@ -634,22 +761,35 @@ def judge(case):
     want = [["Gate Cut" if d["op"][0] == "qpd2" else "Wire Cut", i] for i, d in enumerate(out) if d["op"][0] in ("qpd2", "cut_wire")]
     if want != impl["cuts"]:
         problems.append(f"metadata cuts {impl['cuts']} != markers in the output {want}")
-    # (4) width
+    # (4) width: own segment analysis, and (when recorded) the package's own cut_wires + partition_problem
     ok, worst = _segments_ok(out, W)
     if not ok:
         problems.append(f"a subcircuit needs {worst} qubits > {W}")
-    # (5) accounting
+    pw = impl.get("pipeline")
+    if pw is not None and not any(d["op"][0] == "barrier" for d in out):
+        if not isinstance(pw, int):
+            problems.append(f"cut_wires + partition_problem failed on the returned circuit: {pw}")
+        elif pw > W:
+            problems.append(f"cut_wires + partition_problem gives a subcircuit of {pw} qubits > {W}")
+    # (5) accounting: exact where binary64 is (integer kappas, product below 2^52), relative 1e-9 otherwise
     prod = Fraction(1)
+    exact = True
     if len(stripped) == len(cin):
         for a, b in zip(stripped, cin):
             if a["op"][0] == "qpd2" and b["op"][0] == "gate" and str(b["op"][1]) in gtab:
-                prod *= Fraction(gtab[str(b["op"][1])][0]) ** 2
+                kap = Fraction(gtab[str(b["op"][1])][0])
+                exact = exact and kap.denominator == 1
+                prod *= kap ** 2
     prod *= Fraction(16) ** sum(1 for d in out if d["op"][0] == "cut_wire")
     got = Fraction(impl["overhead"])
-    if not (got == prod or (prod > 2 ** 52 and abs(got - prod) * 2 ** 50 <= prod)):
+    if exact and prod <= 2 ** 52:
+        acc_ok = got == prod
+    else:
+        acc_ok = abs(got - prod) <= prod * Fraction(1, 10 ** 9)
+    if not acc_ok:
         problems.append(f"reported overhead {got} != product over the cuts present {prod}")
     if not in_domain:
-        return dict(violates=False, detail="input outside the property's domain; " + "; ".join(problems))
+        return dict(violates=False, detail=f"input outside the property's domain ({'; '.join(outside)}); " + "; ".join(problems))
     return dict(violates=bool(problems), detail="; ".join(problems) or "output consistent with the property")
 
 
